@@ -51,6 +51,7 @@ def step (st : St) (l : Line) : St × Verdict :=
       (st', .specFail "C10.metadata" s!"after {l.op} {l.args.take 2}: a reloaded session's id/key/IV/metadata differs from the live one")
     else if rl ≠ ll then
       (st', .specFail "C10.links" s!"after {l.op} {l.args.take 2}: reloaded parent/child pairs {rl}, live {ll}")
+    else if l.op == "burst" then (st', .ok)     -- a teamserver of its own: no listeners there
     else
       let midBad := (mid.splitOn "~").find? fun m => m ≠ "-" ∧ ((m.splitOn ":").getD 1 "-") ≠ "-"
       match midBad with
